@@ -97,11 +97,31 @@ def _run(path, rlimit=None, threads=8, timeout=900):
 
 
 def run_unit(unit, use_cache=True, with_canary=True):
+    """verify a unit; if the front end rejects the spliced text of some functions (compile error located inside their
+    emitted span), those functions are demoted to assumed contracts, reported UNDECIDED, and the rest is re-verified."""
+    res = _run_unit(unit, use_cache, with_canary, ())
+    rounds = 0
+    demote = set()
+    while res.status == "undecided" and getattr(res, "offenders", None) and rounds < 4:
+        demote |= set(res.offenders)
+        first_reason = res.reason
+        res2 = _run_unit(unit, use_cache, with_canary, tuple(sorted(demote)))
+        res2.demoted = dict(getattr(res, "demoted", {}))
+        for o in res.offenders:
+            res2.demoted[o] = first_reason
+        res = res2
+        rounds += 1
+    return res
+
+
+def _run_unit(unit, use_cache, with_canary, demote):
     res = UnitResult(unit)
+    res.demoted = {}
+    res.offenders = []
     os.makedirs(os.path.join(WORK, unit), exist_ok=True)
     t0 = time.time()
     try:
-        text, recs, meta = assemble(unit)
+        text, recs, meta = assemble(unit, demote=demote)
     except (AnchorLost, Unsupported, KeyError, FileNotFoundError) as e:
         res.status = "undecided"
         res.reason = "extraction: %s: %s" % (type(e).__name__, e)
@@ -132,7 +152,7 @@ def run_unit(unit, use_cache=True, with_canary=True):
         cmd, out, err, rc, wall = _run(path, meta.get("rlimit"))
         canary_ok = None
         if with_canary:
-            ctext, _, _ = assemble(unit, canary=True)
+            ctext, _, _ = assemble(unit, canary=True, demote=demote)
             cp = os.path.join(WORK, unit, unit.replace("-", "_") + "_canary.rs")
             # canary file: same prelude, only the canary proof fn matters -> verify just that function
             with open(cp, "w") as f:
@@ -201,6 +221,15 @@ def _interpret(res, text, c):
         msgs = "; ".join(d.get("message", "")[:200] for d in diags[:4])
         res.status = "undecided"
         res.reason = "verus front end rejected the unit (unsupported construct / type error): " + msgs
+        offenders = []
+        for d in diags:
+            for sp in d.get("spans", []):
+                if not sp.get("file_name", "").endswith(os.path.basename(res.file)):
+                    continue
+                for r in res.recs:
+                    if r.mode == "prove" and r.emit_start <= sp["byte_start"] < r.emit_end and r.id not in offenders:
+                        offenders.append(r.id)
+        res.offenders = offenders
         return
     tb = text.encode()
     # attribute each diagnostic to an emitted function by byte span
@@ -235,6 +264,11 @@ def _interpret(res, text, c):
     rec_names = set()
     for r in res.recs:
         ob = dict(id="verus:%s:%s" % (res.unit, r.id), kind="fn", mode=r.mode, rec=r, msgs=per_rec[r.id], ms=None, rlimit=None)
+        if r.mode == "demoted":
+            ob["status"] = "undecided"
+            ob["msgs"] = [dict(message="spliced text rejected by the Verus front end (lost hint anchor / unsupported construct): " + res.demoted.get(r.id, ""), rendered="")]
+            res.obligations.append(ob)
+            continue
         if r.mode != "prove":
             continue
         # timing info by suffix
